@@ -8,11 +8,12 @@ import SpVerif.Drive.Replace
 import SpVerif.Drive.DocScan
 import SpVerif.Drive.Engine
 import SpVerif.Drive.Callables
+import SpVerif.Drive.Fields
 open Lean SpVerif.Drive
 
 /-- every op of every per-property driver module: add `++ <module>Ops` here -/
 def allOps : List (String × (Json → R Json)) :=
-  namingOps ++ conflictsOps ++ replaceOps ++ docScanOps ++ engineOps ++ callablesOps
+  namingOps ++ conflictsOps ++ replaceOps ++ docScanOps ++ engineOps ++ callablesOps ++ fieldsOps
 
 def dispatch (op : String) (c : Json) : R Json :=
   match allOps.lookup op with
